@@ -105,9 +105,20 @@ pub fn step(x: f64, k: i64) -> f64 {
 /// 52-bit mantissa field by class
 pub fn mantissa(ctx: &mut Ctx) -> u64 {
     const M: u64 = (1u64 << 52) - 1;
-    let c = ctx.weighted(&[4, 10, 3, 2, 3, 2, 2, 2, 1]);
+    let c = ctx.weighted(&[4, 10, 3, 2, 3, 2, 2, 2, 1, 3, 1]);
     let raw = ctx.bits(52);
     match c {
+        9 => {
+            // 1 + eps with eps log-uniform in [2^-52, 2^-2]: just above a power of two at every scale
+            ctx.label("mant:above-pow2");
+            let k = 2 + (raw % 50) as u32;
+            (raw >> k).max(1)
+        }
+        10 => {
+            // 2 - eps, eps log-uniform
+            let k = 2 + (raw % 50) as u32;
+            M - (raw >> k)
+        }
         0 => {
             ctx.label("mant:pow2");
             0
@@ -119,9 +130,18 @@ pub fn mantissa(ctx: &mut Ctx) -> u64 {
         }
         3 => 1,
         4 => {
-            // short: only the top k bits
-            let k = 1 + (raw % 20) as u32;
-            (raw >> (52 - k)) << (52 - k)
+            // short: only the top k bits; half of the time k is around half the significand
+            // width (24..=29 fraction bits: splitting / "fits in half a word" shortcuts), with
+            // the last kept bit forced to 1 so that the width is exact
+            let sel = raw % 40;
+            if sel < 20 {
+                let k = 1 + sel as u32;
+                (raw >> (52 - k)) << (52 - k)
+            } else {
+                ctx.label("mant:half-width");
+                let k = 23 + (sel % 7) as u32;
+                ((raw >> (52 - k)) | 1) << (52 - k)
+            }
         }
         5 => raw & !1,
         6 => raw | 1,
@@ -154,7 +174,7 @@ pub fn exp_in(ctx: &mut Ctx, emin: i64, emax: i64) -> i64 {
 
 /// A low word making (hi, lo) a valid double-double; hi finite, normal, non-zero.
 pub fn low_word(ctx: &mut Ctx, hi: f64) -> f64 {
-    let c = ctx.weighted(&[3, 1, 3, 2, 1, 1, 8, 3, 1, 1, 2]);
+    let c = ctx.weighted(&[3, 1, 3, 2, 1, 1, 8, 3, 1, 1, 2, 3]);
     let neg = ctx.flag();
     let raw = ctx.bits(52);
     let gsel = ctx.word();
@@ -219,6 +239,17 @@ pub fn low_word(ctx: &mut Ctx, hi: f64) -> f64 {
         8 => {
             ctx.label("lo:min-subnormal");
             f64::from_bits(1)
+        }
+        11 => {
+            // near the tie but not on it: limit * (1 - eps), eps log-uniform in [2^-52, 2^-3]
+            ctx.label("lo:near-tie");
+            let k = 3 + (gsel % 49) as u32;
+            if lim_e - 1 < -1022 {
+                below
+            } else {
+                let m = ((1u64 << 52) - 1) - (raw >> k);
+                f64::from_bits((((lim_e - 1 + 1023) as u64) << 52) | m)
+            }
         }
         9 => {
             // power of two somewhere below
